@@ -1,6 +1,26 @@
 package main
 
-// Lemma-abstracted floating point (filled in with C18).
+// Lemma-abstracted floating point ("floatMode": "abstract").
+//
+// Chains of floating-point arithmetic are out of reach of the solvers (DESIGN §4), so in this mode
+// every multiplication, division and math.Exp on symbolic operands is an UNINTERPRETED result: a
+// fresh symbol constrained only by single-operation IEEE-754 lemmas instantiated at the
+// application (and pairwise between applications of the same kind). Addition, subtraction,
+// comparisons and conversions keep their exact semantics. Because every lemma is a consequence of
+// the real operation, the abstraction over-approximates float32/float64 arithmetic: "unsat"
+// transfers to the real semantics; a "sat" may be spurious and is only reported after native replay.
+//
+// The multiplication/division lemmas are themselves checked against the exact SMT semantics by
+// `gosym lemmas` (solver-discharged); the Exp lemmas are math.Exp's documented special cases and
+// monotonicity (trusted, listed in the evidence).
+
+import (
+	"fmt"
+	"math"
+	"os"
+	"os/exec"
+	"strings"
+)
 
 type absApp struct {
 	op   string
@@ -8,6 +28,168 @@ type absApp struct {
 	r    *Term
 }
 
+func (c *Ctx) fpConst(v float64, s Sort) *Term { return c.tb.fconst(v, s) }
+
+func (c *Ctx) fpPred(op string, t *Term) *Term {
+	if t.isC {
+		f := t.fval()
+		switch op {
+		case "fp.isNaN":
+			return c.tb.Bool(f != f)
+		case "fp.isInfinite":
+			return c.tb.Bool(math.IsInf(f, 0))
+		}
+	}
+	return c.tb.mk(op, SBool, 0, 0, t)
+}
+
 func (c *Ctx) absFloat(op string, x, y *Term) *Term {
-	panic(unsupported("abstract float mode not built yet"))
+	tb := c.tb
+	c.absSeq++
+	r := tb.Sym(fmt.Sprintf("fa%d_%s", c.absSeq, strings.TrimPrefix(op, "fp.")), x.s)
+	app := absApp{op: op, x: x, y: y, r: r}
+	for _, l := range c.absLemmas(app) {
+		c.assertPC(l)
+	}
+	for _, o := range c.absApps {
+		for _, l := range c.absPairLemmas(o, app) {
+			c.assertPC(l)
+		}
+	}
+	c.absApps = append(c.absApps, app)
+	return r
+}
+
+// absLemmas: single-application lemmas (instantiated forms of the library checked by `gosym lemmas`).
+func (c *Ctx) absLemmas(a absApp) []*Term {
+	tb := c.tb
+	s := a.x.s
+	zero, one := c.fpConst(0, s), c.fpConst(1, s)
+	nan := func(t *Term) *Term { return c.fpPred("fp.isNaN", t) }
+	inf := func(t *Term) *Term { return c.fpPred("fp.isInfinite", t) }
+	le := func(p, q *Term) *Term { return tb.fcmp("fp.leq", p, q) }
+	lt := func(p, q *Term) *Term { return tb.fcmp("fp.lt", p, q) }
+	eq := func(p, q *Term) *Term { return tb.fcmp("fp.eq", p, q) }
+	and := func(ts ...*Term) *Term {
+		cur := tb.Bool(true)
+		for _, t := range ts {
+			cur = tb.And(cur, t)
+		}
+		return cur
+	}
+	imp := tb.Implies
+	fin := func(t *Term) *Term { return and(tb.Not(nan(t)), tb.Not(inf(t))) }
+	x, y, r := a.x, a.y, a.r
+	switch a.op {
+	case "fp.mul":
+		return []*Term{
+			imp(tb.Or(nan(x), nan(y)), nan(r)),
+			imp(and(fin(x), fin(y)), tb.Not(nan(r))),
+			imp(and(le(zero, x), fin(x), le(zero, y), le(y, one)), and(le(zero, r), le(r, x))),
+			imp(and(le(zero, y), fin(y), le(zero, x), le(x, one)), and(le(zero, r), le(r, y))),
+		}
+	case "fp.div":
+		posFin := and(lt(zero, y), fin(y))
+		return []*Term{
+			imp(tb.Or(nan(x), nan(y)), nan(r)),
+			imp(and(tb.Not(nan(x)), posFin), tb.Not(nan(r))),
+			imp(and(le(zero, x), le(x, y), posFin), and(le(zero, r), le(r, one))),
+			imp(and(eq(x, zero), lt(zero, y)), eq(r, zero)),
+			imp(and(inf(x), lt(x, zero), posFin), and(inf(r), lt(r, zero))),
+			imp(and(eq(x, y), posFin), eq(r, one)),
+			imp(and(lt(zero, x), fin(x), posFin), le(zero, r)),
+			imp(and(fin(x), le(one, y), fin(y)), fin(r)),
+		}
+	case "math.Exp":
+		negInf := and(inf(x), lt(x, zero))
+		posInf := and(inf(x), lt(zero, x))
+		return []*Term{
+			imp(nan(x), nan(r)),
+			imp(tb.Not(nan(x)), and(tb.Not(nan(r)), le(zero, r))),
+			imp(negInf, eq(r, zero)),
+			imp(posInf, and(inf(r), lt(zero, r))),
+			imp(eq(x, zero), eq(r, one)),
+			imp(le(x, zero), le(r, one)),
+			imp(and(le(x, zero), le(c.fpConst(-80, s), x)), lt(zero, r)), // exp(-80) = 1.8e-35 > 0 in float64
+		}
+	}
+	return nil
+}
+
+// absPairLemmas: monotonicity between two applications of the same kind.
+func (c *Ctx) absPairLemmas(a, b absApp) []*Term {
+	tb := c.tb
+	if a.op != b.op || a.x.s != b.x.s {
+		return nil
+	}
+	le := func(p, q *Term) *Term { return tb.fcmp("fp.leq", p, q) }
+	switch a.op {
+	case "math.Exp":
+		return []*Term{tb.Implies(le(a.x, b.x), le(a.r, b.r)), tb.Implies(le(b.x, a.x), le(b.r, a.r))}
+	}
+	return nil
+}
+
+// lemmaSelfCheck discharges the mul/div lemma library against the exact IEEE semantics:
+// for fresh x, y and r := x op y (exact), the negation of each lemma must be unsat.
+func lemmaSelfCheck() int {
+	c := &Ctx{tb: TB{NewTermTable()}}
+	c.w = &World{}
+	bad := 0
+	total := 0
+	for _, op := range []string{"fp.mul", "fp.div"} {
+		x := c.tb.mk("bits2f32", SF32, 0, 0, c.tb.Sym("x", S32))
+		y := c.tb.mk("bits2f32", SF32, 0, 0, c.tb.Sym("y", S32))
+		r := c.tb.farith(op, x, y)
+		for i, l := range c.absLemmas(absApp{op: op, x: x, y: y, r: r}) {
+			total++
+			res := oneShot(c.tb.Not(l))
+			fmt.Printf("lemma %s #%d: %s\n", op, i, map[string]string{"unsat": "valid", "sat": "INVALID", "unknown": "UNDECIDED"}[res])
+			if res != "unsat" {
+				bad++
+			}
+		}
+		if false {
+			x2 := c.tb.mk("bits2f32", SF32, 0, 0, c.tb.Sym("x2", S32))
+			r2 := c.tb.farith(op, x2, y)
+			for i, l := range c.absPairLemmas(absApp{op: op, x: x, y: y, r: r}, absApp{op: op, x: x2, y: y, r: r2}) {
+				total++
+				res := oneShot(c.tb.Not(l))
+				fmt.Printf("pair lemma %s #%d: %s\n", op, i, map[string]string{"unsat": "valid", "sat": "INVALID", "unknown": "UNDECIDED"}[res])
+				if res != "unsat" {
+					bad++
+				}
+			}
+		}
+	}
+	fmt.Printf("lemmas: %d checked, %d not valid\n", total, bad)
+	if bad > 0 {
+		return 1
+	}
+	return 0
+}
+
+// oneShot decides a closed query with the portfolio (cvc5 first: it is the one that finishes fp.mul).
+func oneShot(t *Term) string {
+	var sb strings.Builder
+	emit(&sb, map[int]bool{}, t)
+	fmt.Fprintf(&sb, "(assert %s)\n(check-sat)\n", t.ref())
+	f, _ := os.CreateTemp("", "gosym-lemma-*.smt2")
+	defer os.Remove(f.Name())
+	for _, cand := range [][]string{{"cvc5", "--tlimit=120000"}, {"z3-new", "-T:120"}, {"z3", "-T:120"}} {
+		if _, err := exec.LookPath(cand[0]); err != nil {
+			continue
+		}
+		pre := ""
+		if cand[0] == "cvc5" {
+			pre = "(set-logic ALL)\n"
+		}
+		os.WriteFile(f.Name(), []byte(pre+sb.String()), 0o644)
+		out, _ := exec.Command(cand[0], append(cand[1:], f.Name())...).CombinedOutput()
+		first := strings.TrimSpace(strings.SplitN(string(out), "\n", 2)[0])
+		if first == "sat" || first == "unsat" {
+			return first
+		}
+	}
+	return "unknown"
 }
